@@ -132,6 +132,7 @@ func c18Decoders(c *Ctx) {
 				checkRead(r, 1<<30)
 			}
 			fixed8 := false
+			pathComposite := false
 			for _, e := range p.Effects {
 				if e.Val != nil {
 					checkRead(e.Val, e.Seq)
@@ -156,6 +157,11 @@ func c18Decoders(c *Ctx) {
 					}
 					if e.Kind == "call" && !e.Pure && e.Call.Op == "call" && strings.HasPrefix(e.Call.Sym, "ddsketch/encoding.Decode") {
 						composite = true
+						pathComposite = true
+						// framing of a composite decoder is the inner decoder's: it is handed the caller's cursor itself
+						if len(e.Call.Args) == 0 || !e.Call.Args[0].isParam(0) {
+							bad = "the inner decoder " + e.Call.Sym + " is not handed the cursor of the caller (the bytes it consumes are not the bytes the caller advances by)"
+						}
 					}
 				}
 			}
@@ -171,6 +177,10 @@ func c18Decoders(c *Ctx) {
 				}
 			}
 			switch {
+			case pathComposite:
+				if store != nil {
+					bad = firstNonEmpty(bad, "a decoder that delegates to another decoder moves the cursor itself: "+store.Val.Key())
+				}
 			case last.Key() == "global:io.EOF":
 				if store != nil {
 					bad = "cursor advanced on an end-of-input path"
